@@ -638,9 +638,12 @@ impl<'a> Parser<'a> {
     ///
     /// ```
     pub const fn trim(mut self) -> Self {
-        parsing! {self, FromBoth;
-            self.str = crate::string::trim(self.str);
-        }
+        // trimming the start first so that `start_offset` only advances by
+        // the amount of bytes removed from the start.
+        self = self.trim_start();
+        self.parse_direction = ParseDirection::FromBoth;
+        self.str = crate::string::trim_end(self.str);
+        self
     }
 
     /// Removes whitespace from the start of the parsed string.
@@ -718,9 +721,12 @@ impl<'a> Parser<'a> {
     where
         P: Pattern<'p>,
     {
-        parsing! {self, FromBoth;
-            self.str = crate::string::trim_matches(self.str, needle);
-        }
+        // trimming the start first so that `start_offset` only advances by
+        // the amount of bytes removed from the start.
+        self = self.trim_start_matches(needle);
+        self.parse_direction = ParseDirection::FromBoth;
+        self.str = crate::string::trim_end_matches(self.str, needle);
+        self
     }
 
     /// Repeatedly removes all instances of `needle` from the start of the parsed string.
